@@ -4,7 +4,9 @@ SPEC = {
     "targets": ["Properties/C02.vo", "Run/C02.vo"],
     "theorems": {"Properties.C02": [
         "C02_strict_rules_wellformed", "C02_relaxed_rules_wellformed",
-        "C02_routing_total_strict", "C02_routing_total_relaxed", "C02_nonvacuous"],
+        "C02_routing_total_strict", "C02_routing_total_relaxed",
+        "C02_lines_strict", "C02_lines_relaxed", "C02_lines_oracle", "C02_positions_total",
+        "C02_nonvacuous", "C02_lines_nonvacuous"],
         "Properties.C19": ["C19_relaxed_total"]},
     "harness_args": lambda tier: ["C02", "--n", 400, "--bin-variants", 1] if tier == "quick" else ["C02", "--n", 8000, "--bin-variants", 4],
     "search_args": lambda tier: ["C02", "--n", 2500, "--bin-variants", 2],
